@@ -34,13 +34,17 @@ class SymFloat:
     def __eq__(self, o):
         if _isinstance(o, SymFloat):
             a, b = SymStr.of(self.text), SymStr.of(o.text)
-            if len(a.cs) == len(b.cs):
-                e = a.eqz(b)
-                if e is True:
-                    return True
-            raise Unsupported("numeric comparison of two different float texts")
-        if _isinstance(o, (int, float, SymInt)):
-            raise Unsupported("numeric comparison of a symbolic float")
+            if len(a.cs) == len(b.cs) and a.eqz(b) is True:
+                return True
+            # finite floats with at most 15 significant digits are equal iff their canonical repr texts are
+            ca, cb = SymStr(float_repr(a)), SymStr(float_repr(b))
+            if len(ca.cs) != len(cb.cs):
+                return False
+            return mkbool(ca.eqz(cb))
+        if _isinstance(o, float):
+            return self.__eq__(SymFloat(SymStr.of(builtins.repr(o))))
+        if _isinstance(o, (int, SymInt)):
+            raise Unsupported("numeric comparison of a symbolic float with an int")
         return False
 
     def __ne__(self, o):
@@ -207,6 +211,48 @@ def sym_float(x=0.0):
     return SymFloat(SymStr(x.cs))
 
 
+def float_repr(text):
+    """repr(float(text)) for a positional decimal text with at most 15 significant digits and a
+    magnitude that repr() writes without an exponent; everything else is outside the model"""
+    ctx = Ctx.cur
+    cs = list(text.cs)
+    while cs and ctx.decide_b(ch_in(cs[0], _num_space())):
+        cs.pop(0)
+    while cs and ctx.decide_b(ch_in(cs[-1], _num_space())):
+        cs.pop()
+    neg = False
+    if cs and ctx.decide_b(zor([ch_eq(cs[0], "+"), ch_eq(cs[0], "-")])):
+        neg = ctx.decide_b(ch_eq(cs[0], "-"))
+        cs.pop(0)
+    ip, fp, seen_dot = [], [], False
+    for c in cs:
+        if not seen_dot and ctx.decide_b(ch_eq(c, ".")):
+            seen_dot = True
+            continue
+        if not ctx.decide_b(ch_in(c, ((48, 57),))):
+            raise Unsupported("repr of a float written with an exponent, underscores, non-ASCII digits, inf or nan")
+        (fp if seen_dot else ip).append(c)
+    while len(ip) > 1 and ctx.decide_b(ch_eq(ip[0], "0")):
+        ip.pop(0)
+    while len(fp) > 1 and ctx.decide_b(ch_eq(fp[-1], "0")):
+        fp.pop()
+    if not ip:
+        ip = ["0"]
+    if not fp:
+        fp = ["0"]
+    int_zero = len(ip) == 1 and ctx.decide_b(ch_eq(ip[0], "0"))
+    frac_zero = len(fp) == 1 and ctx.decide_b(ch_eq(fp[0], "0"))
+    if len(ip) + len(fp) > 15 or len(ip) > 15:
+        raise Unsupported("repr of a float with more than 15 significant digits")
+    if int_zero and not frac_zero:
+        lead = 0
+        while lead < len(fp) and ctx.decide_b(ch_eq(fp[lead], "0")):
+            lead += 1
+        if lead >= 4:
+            raise Unsupported("repr of a float below 1e-4 (exponent notation)")
+    return (["-"] if neg else []) + ip + ["."] + fp
+
+
 def int_digits(v, width=0):
     """decimal digits of a SymInt as string elements.  With a *width* and a value
     known to fit, exactly *width* digits come out without any case split;
@@ -299,7 +345,7 @@ def sym_str(x="", *a):
     if _isinstance(x, SymInt):
         return SymStr.mk(int_digits(x))
     if _isinstance(x, SymFloat):
-        return SymStr.mk(SymStr.of(x.text).cs)
+        return SymStr.mk(float_repr(SymStr.of(x.text)))
     if _isinstance(x, SymBool):
         raise Unsupported("str(SymBool)")
     if _isinstance(x, (SymDate, SymTime, SymTimedelta)):
